@@ -7,7 +7,7 @@ Rec ==
   LET P == P0
       es == ElemSeq(ssh)
       ms == ElemSeq(P)
-  IN [N |-> N, ssh |-> ssh, shsh |-> shsh,
+  IN [N |-> N, ssh |-> ssh, shsh |-> shsh, prev |-> prev,
       S |-> [j \in 1..Len(ms) |-> S[ms[j]]],
       qe |-> [j \in 1..Len(es) |-> ShiftOf(es[j], P, S)]]
 \* `over` does not change what is demanded
